@@ -204,10 +204,12 @@ REGISTRY = {
     'C09': {
         'title': 'axes follow first appearance of population labels; only listed samples count',
         'level': 'model_checking',
+        'verus': ['v_popmap'],
         'kani_quick': ['k_site_noproj_abn_c2', 'k_site_noproj_baa_c0'],
         'kani_thorough': ['k_site_noproj_nba_c1', 'k_site_noproj_aab_c1'],
-        'assumptions': [A_SAMPLEMAP, A_NOODLES, A_BIN],
-        'not_decided': ['first-appearance id assignment (population::Map::get_or_insert: closure mutating its capture over an IndexSet -- outside Verus\' subset, hash set outside CBMC\'s reach)',
+        'assumptions': [A_SAMPLEMAP, A_NOODLES, A_BIN,
+                        'V-popmap: indexmap::IndexSet is replaced by an ASSUMED model (insertion-ordered duplicate-free sequence; get_index_of = position, insert_full = append-if-new) written in the unit, because single-file Verus cannot link the crate; element equality taken as structural'],
+        'not_decided': ['composition of the first-appearance id assignment: population::Map::insert is under contract (V-popmap: a known label keeps its id and changes nothing, a new label gets the next id), but get (`.map(Id)`: constructor as function value) and get_or_insert (closure mutating its capture) are outside Verus\' subset and the hash set is outside CBMC\'s reach; sample::Map::from_iter which drives them is not verified',
                         'samples-file parsing, --samples vs --samples-file, unknown-sample / empty-list errors (Builder::build)'],
     },
     'C11': {
@@ -242,8 +244,9 @@ REGISTRY = {
         'title': 'damaged spectrum files are rejected, never read as a different spectrum',
         'level': 'model_checking',
         'kani_quick': ['k_npy_read_header_len', 'k_detect_spectrum_format', 'k_index_new_absurd_shape', 'k_index_get_2x3_len1'],
-        'kani_thorough': ['k_npy_decode_partial_value_is_error'],
-        'assumptions': ['claimed for the value section and the length field: a partial trailing value or a short length field is an error; Array::new rejects a value count different from the product of the shape (checked with K-index harnesses through Array::from_iter)',
+        'kani_thorough': ['k_npy_decode_partial_value_is_error', 'k_npy_read_array_exact'],
+        'assumptions': ['k_npy_read_array_exact runs the real read_array with Header::read replaced by an assumed result (v1.0, <f8, C order, shape (2,)): exactly prod(shape) values give the declared shape and the values bit for bit; the rejecting cases of read_array exceeded 10 GB under CBMC (io::Error::new) and stay decided piecewise',
+                        'claimed for the value section and the length field: a partial trailing value or a short length field is an error; Array::new rejects a value count different from the product of the shape (checked with K-index harnesses through Array::from_iter)',
                         'truncation inside the header dictionary and text-format damage go through nom / str parsing and are not verified'],
         'not_decided': ['text token removal/insertion', 'CLI exit status and "nothing written"'],
     },
